@@ -222,11 +222,20 @@ pub fn run(seed: u64, runno: u64) -> (Acc, Vec<(String, bool, bool)>) {
     let mut cli: Vec<(String, bool, bool)> = vec![];
     // (i) faithful loading of legal positions with every kind of counter
     let mut p = workload::gen_position(&mut rng);
-    let (h, f) = *rng.pick(COUNTERS);
-    p.halfmove = h;
-    p.fullmove = f;
+    let plies_played = 2 * (p.fullmove as u64 - 1) + if p.white_to_move { 0 } else { 1 };
+    if p.halfmove as u64 > plies_played || rng.chance(2, 3) {
+        // the catalogue of counter values (each pair is possible in a real game) ...
+        let (h, f) = *rng.pick(COUNTERS);
+        p.halfmove = h;
+        p.fullmove = f;
+    } else {
+        // ... or the true counters of the generated game (e.g. "1 1" with Black to move
+        // after 1.Nf3: the halfmove clock equals the plies played)
+        acc.count("c15_legal_fens_with_true_game_counters");
+    }
     let fen = p.fen();
     let verdict = judge_string(&fen, "legal-fen", &mut acc, runno, &z);
+    let (h, f) = (p.halfmove, p.fullmove);
     acc.nontrivial.insert(fnv(p.canon_hash(), &f.to_le_bytes()));
     if f > 255 || h > 99 {
         acc.count("c15_legal_fens_with_counter_beyond_255_or_99");
